@@ -24,6 +24,7 @@ import r_modeflag
 import r_sendrecv
 import r_encadmit
 import r_resdom
+import r_convidx
 import r_rngprov
 import r_dispatch
 import r_range
@@ -666,6 +667,7 @@ def c20(facts, tier):
     strict = [t for t in hts if r_encbound.block_pairs(facts, t)]     # cheetah MatmulHelper, Conv2dHelper
     n = r_encbound.run_inverse(facts, rep, strict)
     rep.floor("R-INDEXPAIR(inv)", "encode_outputs/decode pairs", n, 4)
+    r_convidx.run(facts, rep, floor=2)
     return rep
 
 
